@@ -2,7 +2,7 @@
 # tools/intake.sh <Cxx> <seed-id>  -- copy a sub-agent's SEEDED dir into /verif/seeded/<seed-id>, check the patch applies to /repo HEAD
 set -u
 P="$1"; ID="$2"
-SRC=/tmp/wt-$P/SEEDED
+SRC=${3:-/tmp/wt-$P}/SEEDED
 DST=/verif/seeded/$ID
 mkdir -p "$DST"
 cp "$SRC"/patch.diff "$DST"/patch.diff
